@@ -6,7 +6,10 @@ import Nstd.Str.Model
   with `<v> = length bytes term owned`: bytes in hex (`??` = unspecified, `-` = empty), `term` =
   the stored char `data->str[length]` (for attached memory: the byte behind the attached range),
   `owned` = 1 iff `data` is a heap block.  `<result>` = `-` or the value(s) the call returned.
-  Operands written `x<hex>` are temporaries `String(ptr, len)`.  `split`/`join` share one token list and,
+  Operands written `x<hex>` are temporaries `String(ptr, len)`.  `plus/plusLit/plusEqS/plusEqC/fromCStr/fromCStrN/
+  fromBool/fromInt…/fromPrintf` are the operators and static factories (through `step`), `trimD/substr1/splitD` the
+  calls with their default arguments (taken from String.hpp by the translator), `s…`/`isSpace`/`ctype`/`toLowerC`/
+  `toUpperC` the static helpers on C strings and chars, `attachA/printfA` own-pointer arguments of attach/printf.  `split`/`join` share one token list and,
   like `appendX`/`prependX` with an `x<hex>` operand, run through `xstep` (the extended operations of the
   theorems `xrefines`); `appendA`/`prependA v off len` = `s.append/prepend((const char*)s + off, len)`.
   A fault prints `FAULT` and resets the state.
@@ -67,6 +70,11 @@ def operand (s : St) (t : String) (slot : Nat) : Option (Option (St × Nat)) :=
     match var? t with
     | some v => some (some (s, v))
     | none => none
+
+/-- a NUL-free C string argument -/
+def cstr? (t : String) : Option (List Nat) := do
+  let h ← fromHex t
+  if h.contains 0 then none else some h
 
 def optIdx : Option Nat → String
   | some i => toString i
@@ -319,6 +327,182 @@ def exec (d : DState) (ws : List String) : R :=
   | ["hash", v] =>
     match var? v with
     | some v => match hash s v with | some (s, r) => .ok { d with st := s } (toString r) | none => .fault
+    | none => .bad
+  | ["plusEqS", v, w] => mutOp d (do pure (.plusEqS (← var? v) (← var? w)))
+  | ["plusEqC", v, c] => mutOp d (do pure (.plusEqC (← var? v) (← byte? c)))
+  | ["plus", v, a, b] => mutOp d (do pure (.plus (← var? v) (← var? a) (← var? b)))
+  | ["plusLit", v, a, r] => mutOp d (do
+      let r ← r.toNat?
+      if r < 2 then pure (.plusLit (← var? v) (← var? a) r (regLen r)) else none)
+  | ["fromCStr", v, h] => mutOp d (do
+      let h ← fromHex h
+      if h.contains 0 then none else pure (.fromCStr (← var? v) h))
+  | ["fromCStrN", v, h] => mutOp d (do pure (.fromCStrN (← var? v) (← fromHex h)))
+  | ["fromBool", v, b] => mutOp d (do
+      let b ← b.toNat?
+      if b < 2 then pure (.fromBool (← var? v) (b == 1)) else none)
+  | ["fromInt", v, x] => mutOp d (do
+      let x ← x.toInt?
+      if -2147483648 ≤ x ∧ x ≤ 2147483647 then pure (.fromD (← var? v) x) else none)
+  | ["fromInt64", v, x] => mutOp d (do
+      let x ← x.toInt?
+      if -9223372036854775808 ≤ x ∧ x ≤ 9223372036854775807 then pure (.fromD (← var? v) x) else none)
+  | ["fromUInt", v, x] => mutOp d (do
+      let x ← x.toNat?
+      if x < 4294967296 then pure (.fromU (← var? v) x) else none)
+  | ["fromUInt64", v, x] => mutOp d (do
+      let x ← x.toNat?
+      if x < 18446744073709551616 then pure (.fromU (← var? v) x) else none)
+  | "fromPrintf" :: v :: items =>
+    match var? v, parseFmt items with
+    | some v, some f => if fmtOk f then mutOp d (some (.fromPrintf v f)) else .bad
+    | _, _ => .bad
+  | ["trimD", v] => mutOp d (do pure (.trim (← var? v) Generated.trimDefault))
+  | ["substr1", v, w, a] => mutOp d (do pure (.substr (← var? v) (← var? w) (← a.toInt?) Generated.substrDefaultLen))
+  | ["splitD", v, h] =>
+    match var? v, fromHex h with
+    | some v, some h =>
+      match xstep { st := s, toks := d.toks } (.split v h Generated.splitDefaultSkip) with
+      | some x => .ok { st := x.st, toks := x.toks } (" ".intercalate (toString x.toks.length :: x.toks.map bytesStr))
+      | none => .fault
+    | _, _ => .bad
+  | ["splitSet", v, h, sk] =>
+    match var? v, fromHex h, sk.toNat? with
+    | some v, some h, some sk =>
+      match splitSet s v h (sk != 0) with
+      | some (s, ts) => .ok { d with st := s } (" ".intercalate (toString ts.length :: ts.map bytesStr))
+      | none => .fault
+    | _, _, _ => .bad
+  | ["attachA", v, o, l] =>
+    match var? v, o.toNat?, l.toNat? with
+    | some v, some o, some l =>
+      match desc s v with
+      | some dv => if o + l ≤ dv.len then mutSt d (attachAlias s v o l) else .bad
+      | none => .fault
+    | _, _, _ => .bad
+  | ["printfA", v, pre, post] =>
+    match var? v, fromHex pre, fromHex post with
+    | some v, some pre, some post =>
+      if pre.contains 0 || pre.contains 37 || post.contains 0 || post.contains 37 then .bad
+      else
+        match printfAlias s v pre post with
+        | some (s, n) => .ok { d with st := s } (toString n)
+        | none => .fault
+    | _, _, _ => .bad
+  | ["capacity", v] =>
+    match var? v with
+    | some v => match capacity s v with | some r => .ok d (toString r) | none => .fault
+    | none => .bad
+  | ["isEmpty", v] =>
+    match var? v with
+    | some v => match isEmpty s v with | some r => .ok d (b01 r) | none => .fault
+    | none => .bad
+  | ["ne", v, x] =>
+    match var? v with
+    | some v => withOperand d x (fun s w => (notEqualS s v w).map (fun r => (s, b01 r)))
+    | none => .bad
+  | ["eqLit", v, r] =>
+    match var? v, r.toNat? with
+    | some v, some r => if r < 2 then (match equalLit s v r with | some b => .ok d (b01 b) | none => .fault) else .bad
+    | _, _ => .bad
+  | ["neLit", v, r] =>
+    match var? v, r.toNat? with
+    | some v, some r => if r < 2 then (match notEqualLit s v r with | some b => .ok d (b01 b) | none => .fault) else .bad
+    | _, _ => .bad
+  | ["lt", v, x] =>
+    match var? v with
+    | some v => withOperand d x (fun s w => (relS s v w .lt).map (fun (s, r) => (s, b01 r)))
+    | none => .bad
+  | ["le", v, x] =>
+    match var? v with
+    | some v => withOperand d x (fun s w => (relS s v w .le).map (fun (s, r) => (s, b01 r)))
+    | none => .bad
+  | ["gt", v, x] =>
+    match var? v with
+    | some v => withOperand d x (fun s w => (relS s v w .gt).map (fun (s, r) => (s, b01 r)))
+    | none => .bad
+  | ["ge", v, x] =>
+    match var? v with
+    | some v => withOperand d x (fun s w => (relS s v w .ge).map (fun (s, r) => (s, b01 r)))
+    | none => .bad
+  | ["eqICN", v, x, n] =>
+    match var? v, n.toNat? with
+    | some v, some n => withOperand d x (fun s w => (equalsICN s v w n).map (fun (s, r) => (s, b01 r)))
+    | _, _ => .bad
+  -- static helpers (C string arguments are NUL-free)
+  | ["sCompare", a, b] =>
+    match cstr? a, cstr? b with
+    | some a, some b => .ok d (toString (sCompare a b))
+    | _, _ => .bad
+  | ["sCompareN", a, b, n] =>
+    match cstr? a, cstr? b, n.toNat? with
+    | some a, some b, some n => .ok d (toString (sCompareN a b n))
+    | _, _, _ => .bad
+  | ["sCompareIC", a, b] =>
+    match cstr? a, cstr? b with
+    | some a, some b => .ok d (toString (sCompareIC a b))
+    | _, _ => .bad
+  | ["sCompareICN", a, b, n] =>
+    match cstr? a, cstr? b, n.toNat? with
+    | some a, some b, some n => .ok d (toString (sCompareICN a b n))
+    | _, _, _ => .bad
+  | ["sLength", a] =>
+    match cstr? a with
+    | some a => .ok d (toString (cstrLen a))
+    | none => .bad
+  | ["sFindC", a, c] =>
+    match cstr? a, byte? c with
+    | some a, some c => .ok d (optIdx (sFindC a c))
+    | _, _ => .bad
+  | ["sFindLastC", a, c] =>
+    match cstr? a, byte? c with
+    | some a, some c => .ok d (optIdx (sFindLastC a c))
+    | _, _ => .bad
+  | ["sFind", a, b] =>
+    match cstr? a, cstr? b with
+    | some a, some b => .ok d (optIdx (sFind a b))
+    | _, _ => .bad
+  | ["sFindOneOf", a, b] =>
+    match cstr? a, cstr? b with
+    | some a, some b => .ok d (optIdx (sFindOneOf a b))
+    | _, _ => .bad
+  | ["sFindLast", a, b] =>
+    match cstr? a, cstr? b with
+    | some a, some b => .ok d (optIdx (sFindLast a b))
+    | _, _ => .bad
+  | ["sFindLastOf", a, b] =>
+    match cstr? a, cstr? b with
+    | some a, some b => .ok d (optIdx (sFindLastOf a b))
+    | _, _ => .bad
+  | ["sStartsWith", a, x] =>
+    match cstr? a with
+    | some a => withOperand d x (fun s w => (sStartsWith s a w).map (fun r => (s, b01 r)))
+    | none => .bad
+  | ["isSpace", c] =>
+    match byte? c with
+    | some c => .ok d (b01 (isSpaceC c))
+    | none => .bad
+  | ["toLowerC", c] =>
+    match byte? c with
+    | some c => .ok d (toString (toLower c))
+    | none => .bad
+  | ["toUpperC", c] =>
+    match byte? c with
+    | some c => .ok d (toString (toUpper c))
+    | none => .bad
+  | ["ctype", k, c] =>
+    match byte? c with
+    | some c =>
+      (match k with
+       | "alnum" => .ok d (b01 (isAlnumC c))
+       | "alpha" => .ok d (b01 (isAlphaC c))
+       | "digit" => .ok d (b01 (isDigitC c))
+       | "lower" => .ok d (b01 (isLowerC c))
+       | "print" => .ok d (b01 (isPrintC c))
+       | "punct" => .ok d (b01 (isPunctC c))
+       | "upper" => .ok d (b01 (isUpperC c))
+       | "xdigit" => .ok d (b01 (isXDigitC c))
+       | _ => .bad)
     | none => .bad
   | _ => .bad
 
